@@ -7,7 +7,8 @@
 From LibcoapV Require Import Base.Tactics Base.Bytes Persist.Fs Persist.FsProofs Persist.Records
   Persist.RecordsProofs Persist.Updaters Persist.Streams Persist.UpdatersProofs Persist.Discipline
   Persist.Server Persist.ServerProofs Persist.Counter Persist.Witness Persist.Footprint
-  Persist.LoadersProofs Persist.Restore Persist.History.
+  Persist.LoadersProofs Persist.Restore Persist.History Persist.MemLemmas Persist.EventCalls
+  Persist.Coherence Persist.RestoreCoh Persist.Whole Persist.Weak Persist.MidEvent Persist.Final.
 Local Open Scope Z_scope.
 
 (* ------------------------------------------------------------------ C17_records_roundtrip *)
@@ -204,25 +205,12 @@ Qed.
 Print Assumptions C17_update_correct_refuted_old_dyn_added.
 
 (* ------------------------------------------------------------------ C17_restart_restores *)
-(* Full statement aimed at (DESIGN.md): for every history, the server a fresh process builds from
-   the files left by a kill equals the server before the kill on the abstract state: every
-   dynamically created (observable) resource that was not deleted exists, every active
-   observation is re-established with its token and cache key.
-   Proved below: (1) coap_persist_startup on well-formed files computes exactly ps_restored_mem
-   - the application handler run once per dynamic-resource record in file order, counters set to
-   the rounded-up saved values, coap_persist_observe_add run once per observe record in file
-   order, nested counter updates included - and rewrites the observe file with exactly the
-   accepted records under their new keys; (2) every resource of the dynamic-resource file exists
-   afterwards; (3) a stored observation is accepted exactly when its endpoint matches and its
-   request names an existing observable resource, and then a subscription with its address
-   tuple and token is on that resource's list.
-   (4) C17_restart_restores_observations: every stored observation is present in the restored
-   server when the records are pairwise distinct in (resource, session, token / cache key).
-   Missing for the full statement: the invariant linking the in-memory state before the kill to
-   the files over a history (that the files hold exactly the live observations / resources, and
-   satisfy the distinctness above); it is covered by C17_update_correct_* per updater and by the
-   tie and the oracle on every run, not by one theorem over histories. *)
-Theorem C17_restart_restores_partial : forall pol app req alloc cfg m0 D O C fs,
+(* What coap_persist_startup computes from well-formed files: exactly ps_restored_mem - the
+   application handler run once per dynamic-resource record in file order, counters set to the
+   rounded-up saved values, coap_persist_observe_add run once per observe record in file order,
+   nested counter updates included - and the observe file rewritten with exactly the accepted
+   records under their new keys.  (C17_restart_restores below is the theorem over histories.) *)
+Theorem C17_restart_startup : forall pol app req alloc cfg m0 D O C fs,
   0 < psc_la cfg -> 0 < psc_lt cfg -> (forall live, len (alloc live) = PS_KEY) ->
   psc_dyn cfg = true -> psc_obs cfg = true -> psc_cnt cfg = true -> psc_unknown cfg = true ->
   Forall ps_dyn_wf D -> Forall (ps_obs_wf (psc_la cfg) (psc_lt cfg)) O -> Forall ps_cnt_wf C ->
@@ -238,7 +226,7 @@ Theorem C17_restart_restores_partial : forall pol app req alloc cfg m0 D O C fs,
     ps_view s' PS_OBS = Some (ps_obs_file (ps_restored_obs app req alloc cfg m0 D O C)) /\
     ps_view s' PS_DYN = ps_view (ps_boot fs) PS_DYN.
 Proof. intros. apply ps_startup_restores; assumption. Qed.
-Print Assumptions C17_restart_restores_partial.
+Print Assumptions C17_restart_startup.
 
 (* every dynamic resource whose record is in the file exists again (the application re-creates
    the resource that the stored request names: deterministic handler) *)
@@ -280,6 +268,80 @@ Theorem C17_restart_counter_load : forall pol fuel freq l s,
     (forall g, g < ps_next s -> ps_hget g (ps_hs s') = ps_hget g (ps_hs s)).
 Proof. exact ps_cnt_load_correct. Qed.
 Print Assumptions C17_restart_counter_load.
+
+(* ------------------------------------------------------------------ whole histories *)
+(* C17_restart_restores + C17_observe_monotone derived from Server.v, for EVERY history of server
+   events (PUT creating a resource, DELETE, register incl. same-token and cache-key replacement,
+   cancel, notify) and EVERY kill point k, with all three files configured:
+   start from any memory state m coherent with the files (ps_inv: e.g. a fresh process,
+   C17_coherent_fresh_process); kill the process after k stdio calls of the history; start a fresh
+   process on the files that are left.  Then, with evs1 = the events completed before the kill,
+   j = the number of updater calls of the interrupted event that were completed, and
+   mj = ps_mem_last ... = the memory state after the last completed updater (for a DELETE: without
+   the resource from its first call-out on, as coap_delete_resource_lkd unhooks it first):
+     - the files at the kill are the files coherent with the memory state after evs1, advanced by
+       exactly those j calls (whole records only);
+     - every observable resource of mj exists in the fresh process;
+     - every observation of mj is re-established with its session, token, cache key and request;
+     - every Observe value that left on the wire for a resource that still exists (Gj) is
+       smaller than the value the next notification of that resource carries.
+   Hypotheses about the outside world are the arguments of the events (ps_evt_ok: the handler
+   creates what it created, the stored request is the request handled, record fields have their
+   sizes, r->observe stays below 2^24 - save_freq - 2) and of the allocator (fresh 8-byte keys). *)
+Theorem C17_restart_restores : forall pol app req alloc cfg m0,
+  (forall live, ~ In (alloc live) live) -> (forall live, len (alloc live) = PS_KEY) ->
+  len (psc_proto cfg) = PS_PROTO -> len (psc_listen cfg) = psc_la cfg ->
+  0 < psc_freq cfg -> psc_freq cfg < 1000000 ->
+  psc_dyn cfg = true -> psc_obs cfg = true -> psc_cnt cfg = true -> psc_unknown cfg = true ->
+  0 < psc_la cfg -> 0 < psc_lt cfg -> Forall ps_fresh_rsrc m0 ->
+  forall evs m A G sent s k,
+    ps_inv app req cfg m0 m A G -> ps_hist_ok app req alloc cfg evs m ->
+    (2 * (ps_abs_size A + ps_hist_ncalls alloc cfg evs m) < psc_fuel cfg)%nat ->
+    ps_tmpw s -> ps_holdsA s A ->
+    exists evs1 rest j mR,
+      evs = evs1 ++ rest /\
+      (j <= match rest with
+            | e :: _ => length (ps_ev_calls alloc cfg e (fst (ps_hist_state alloc cfg evs1 m A)))
+            | [] => 0 end)%nat /\
+      ps_holdsA (ps_runk pol (ps_hist alloc cfg evs m sent) k s)
+        (ps_abs_calls (firstn j (match rest with
+                                 | e :: _ => ps_ev_calls alloc cfg e (fst (ps_hist_state alloc cfg evs1 m A))
+                                 | [] => []
+                                 end)) (snd (ps_hist_state alloc cfg evs1 m A))) /\
+      fst (ps_run pol (ps_startup app req alloc cfg m0)
+                  (ps_boot (ps_fs (ps_runk pol (ps_hist alloc cfg evs m sent) k s)))) = Some mR /\
+      let mj := ps_mem_last alloc rest (fst (ps_hist_state alloc cfg evs1 m A)) j in
+      let Gj := ps_ghost_last alloc cfg rest (fst (ps_hist_state alloc cfg evs1 m A))
+                              (ps_ghosts alloc evs1 m G) j in
+      (forall n r, ps_find n mj = Some r -> psr_observable r = true -> ps_has mR n) /\
+      (forall n su, ps_insub mj n su -> ps_present req mR (ps_obs_of cfg su)) /\
+      (forall n tu tok v rR, In (n, tu, tok, v) Gj -> ps_find n mR = Some rR -> v < psr_observe rR + 1).
+Proof. intros. eapply ps_history_restart; eassumption. Qed.
+Print Assumptions C17_restart_restores.
+
+(* the invariant that links memory, files and sent values holds after every event of every
+   history ... *)
+Theorem C17_coherent_histories : forall app req alloc cfg m0,
+  (forall live, ~ In (alloc live) live) -> (forall live, len (alloc live) = PS_KEY) ->
+  len (psc_proto cfg) = PS_PROTO -> len (psc_listen cfg) = psc_la cfg ->
+  0 < psc_freq cfg -> psc_freq cfg < 1000000 ->
+  forall evs m A G,
+    ps_inv app req cfg m0 m A G -> ps_hist_ok app req alloc cfg evs m ->
+    ps_inv app req cfg m0 (fst (ps_hist_state alloc cfg evs m A)) (snd (ps_hist_state alloc cfg evs m A))
+           (ps_ghosts alloc evs m G) /\
+    ps_hist_wf alloc cfg evs m.
+Proof. intros. eapply ps_inv_history; eassumption. Qed.
+Print Assumptions C17_coherent_histories.
+
+(* ... and in a fresh process (what the application registers itself, no files) *)
+Theorem C17_coherent_fresh_process : forall app req cfg m0,
+  Forall ps_fresh_rsrc m0 -> NoDup (map psr_name m0) ->
+  (forall r, In r m0 -> psr_observe r <= ps_bound cfg) ->
+  ps_inv app req cfg m0 m0 ps_abs0 [] /\ ps_holdsA (ps_boot []) ps_abs0 /\ ps_tmpw (ps_boot []).
+Proof.
+  intros. split; [apply ps_inv_init; assumption|]. split; [repeat split|apply ps_tmpw_boot].
+Qed.
+Print Assumptions C17_coherent_fresh_process.
 
 (* ------------------------------------------------------------------ C17_observe_monotone *)
 (* for every save_freq f > 0, every history of registrations, notifications and kills at any
